@@ -210,7 +210,16 @@ Inductive pop :=
 | PRemoveFront (i : nat)
 | PRemoveBack (i : nat)
 | PClear (i : nat)
-| PSwap (i j : nat).
+| PSwap (i j : nat)
+| PAppendN (i : nat) (args : list Z).     (* T& append(A a, B b, ...) with 0..7 arguments: T(a, b, ...) constructed in place *)
+
+(* The element T(a1, ..., an) of an element type whose n-argument constructors (n = 0..7) record what
+   they were given: its value names the arity and the arguments in their order (injective for
+   arguments 0..7, SeqListProofs.ctor_val_injective).  The harness's `Rec` prints exactly this. *)
+Definition ctor_val (args : list Z) : Z :=
+  Z.of_nat (length args) + 8 * fold_right (fun a acc => a + 8 * acc) 0 args.
+Definition ctor_args_ok (args : list Z) : bool :=
+  Nat.leb (length args) 7 && forallb (fun a => (0 <=? a) && (a <? 8)) args.
 
 Definition ppre (sz : nat -> nat) (nv : nat) (op : pop) : bool :=
   match op with
@@ -218,6 +227,7 @@ Definition ppre (sz : nat -> nat) (nv : nat) (op : pop) : bool :=
   | PRemove i k | PRemoveRef i k => Nat.ltb i nv && Nat.ltb k (sz i)
   | PRemoveFront i | PRemoveBack i => Nat.ltb i nv && Nat.ltb 0 (sz i)
   | PSwap i j => Nat.ltb i nv && Nat.ltb j nv && negb (Nat.eqb i j)
+  | PAppendN i args => Nat.ltb i nv && ctor_args_ok args
   end.
 
 Definition pspec (s : sstate) (op : pop) : sstate * res :=
@@ -230,6 +240,7 @@ Definition pspec (s : sstate) (op : pop) : sstate * res :=
   | PRemoveFront i => (upd i (tl (sget i s)) s, RIt O)
   | PRemoveBack i => (upd i (removelast (sget i s)) s, RIt (pred (length (sget i s))))
   | PSwap i j => (upd j (sget i s) (upd i (sget j s) s), RNone)
+  | PAppendN i args => (upd i (sget i s ++ [ctor_val args]) s, RRef (length (sget i s)))
   end.
 
 Fixpoint pspec_run (s : sstate) (ops : list pop) : list (sstate * res) :=
